@@ -38,7 +38,7 @@ def main(tier, seed):
     nviol = 0
     stats = dict(perm_pairs=0, rescale_groups=0, rescale_discarded_ties=0, queries=0)
     terms, expect, insts = [], [], []
-    NP = 120 if tier == "quick" else 2500
+    NP = 120 if tier == "quick" else 10000
     for i in range(NP):
         metric = rng.choice(supcheck.PLAIN_METRICS if hasattr(supcheck, "PLAIN_METRICS") else PLAIN_METRICS)
         n, m = rng.randint(3, 9 if tier == "quick" else 13), rng.randint(1, 4)
@@ -82,7 +82,7 @@ def main(tier, seed):
     bad = supcheck.corr(rep, "correspondence Model/Sup.sup_fit vs SupervisedOPF.fit on both members of every (instance, permuted instance) pair", "C11", terms, expect, insts)
     rep.corr["permutation_pairs"] = dict(cases=len(terms), disagreements=None if bad is None else len(bad))
     # ---- rescaling: the five mutually monotone Euclidean-family identifiers on the same features
-    NR = 80 if tier == "quick" else 1500
+    NR = 80 if tier == "quick" else 6000
     for i in range(NR):
         n, m = rng.randint(3, 9), rng.randint(1, 4)
         X, D0 = tie_free_points(rng, n, m, "squared_euclidean")
